@@ -28,9 +28,8 @@ local macro "bitcost_subst" : tactic => `(tactic|
 
 -- writing forms on @ERd: read the byte, write the changed byte back.  Context: hp, hi, h, hsfr; `htag` proved before.
 set_option hygiene false in
-local macro "bitw_ind" il:ident pl:ident : tactic => `(tactic|
-  (rw [$il:ident] at hi; simp only [Option.some.injEq] at hi; subst hi
-   rw [$pl:ident] at hp; simp only [Bool.and_eq_true, beq_iff_eq] at hp
+macro "bitw_ind_pre" pl:ident : tactic => `(tactic|
+  (rw [$pl:ident] at hp; simp only [Bool.and_eq_true, beq_iff_eq] at hp
    have h3 : (nib op 3).ule 7#8 = true := by (simp only [nib]; bv_decide)
    first
      | (have htag : (op2 &&& 0xff0f == 0x7000) = true := by bv_decide)
@@ -49,7 +48,12 @@ local macro "bitw_ind" il:ident pl:ident : tactic => `(tactic|
    case h_3 => simp at h
    rename_i u s1 hrw
    have ew := busWrite_poke _ _ _ _ hrw hsfr
-   subst ew
+   subst ew))
+
+set_option hygiene false in
+local macro "bitw_ind" il:ident pl:ident : tactic => `(tactic|
+  (rw [$il:ident] at hi; simp only [Option.some.injEq] at hi; subst hi
+   bitw_ind_pre $pl:ident
    bitcost_subst
    simp only [specRegCcrBus, Spec.exec, Spec.BitOp.writes, if_true, getER_eq]
    have hidx : (BitVec.setWidth 8 (BitVec.setWidth 3 (BitVec.extractLsb' 4 3 op))) = nib op 3 := by
@@ -63,6 +67,7 @@ local macro "bitw_ind" il:ident pl:ident : tactic => `(tactic|
    congr 2
    simp only [Spec.bitK, BMod.ap, bstVal, nib, Spec.flag]
    bv_decide))
+
 
 /-- BSET #imm,@ERd: exactly the addressed bit of exactly the addressed byte changes -/
 theorem BSET_I_IND (op op2 : BitVec 16) (st st' : Cpu) (c : BitVec 8) (i : Spec.Instr)
@@ -106,9 +111,8 @@ theorem BIST_IND (op op2 : BitVec 16) (st st' : Cpu) (c : BitVec 8) (i : Spec.In
 
 -- reading forms on @ERd: read the byte, change exactly one flag.  Context: hp, hi, h.
 set_option hygiene false in
-local macro "bitr_ind" il:ident pl:ident : tactic => `(tactic|
-  (rw [$il:ident] at hi; simp only [Option.some.injEq] at hi; subst hi
-   rw [$pl:ident] at hp; simp only [Bool.and_eq_true, beq_iff_eq] at hp
+macro "bitr_ind_pre" pl:ident : tactic => `(tactic|
+  (rw [$pl:ident] at hp; simp only [Bool.and_eq_true, beq_iff_eq] at hp
    have h3 : (nib op 3).ule 7#8 = true := by (simp only [nib]; bv_decide)
    simp only [btstErn, baccErn, btstSet, getAddrErn, Bool.false_eq_true, if_false, bind_ok, pure_ok, get_ok, readRnL_ok _ _ h3,
      readCcr_ok, changeCcr_ok] at h
@@ -118,7 +122,12 @@ local macro "bitr_ind" il:ident pl:ident : tactic => `(tactic|
    rename_i vb sb hbb
    obtain ⟨e1, e2, _⟩ := busRead_peek _ _ _ _ hbb
    subst e1
-   try (rw [C04H.writeCcr_val _ _ _ (C04H.bacc_value _ _ _ _)] at h; simp only [bind_ok] at h)
+   try (rw [C04H.writeCcr_val _ _ _ (C04H.bacc_value _ _ _ _)] at h; simp only [bind_ok] at h)))
+
+set_option hygiene false in
+local macro "bitr_ind" il:ident pl:ident : tactic => `(tactic|
+  (rw [$il:ident] at hi; simp only [Option.some.injEq] at hi; subst hi
+   bitr_ind_pre $pl:ident
    bitcost_subst
    simp only [specRegCcr, Spec.exec, Spec.BitOp.writes, Bool.false_eq_true, if_false, getER_eq]
    have hidx : (BitVec.setWidth 8 (BitVec.setWidth 3 (BitVec.extractLsb' 4 3 op))) = nib op 3 := by
@@ -132,6 +141,7 @@ local macro "bitr_ind" il:ident pl:ident : tactic => `(tactic|
    congr 1
    simp only [Spec.bitK, BAcc.ap, nib, Spec.flag, Spec.setFlag, changeCcrV]
    bv_decide))
+
 
 /-- BTST #imm,@ERd: Z := ¬bit on @ERd: only the one flag changes; registers and memory are untouched -/
 theorem BTST_I_IND (op op2 : BitVec 16) (st st' : Cpu) (c : BitVec 8) (i : Spec.Instr)
@@ -207,9 +217,8 @@ theorem abs8_addr (op : BitVec 16) :
   omega
 
 set_option hygiene false in
-local macro "bitw_abs" il:ident pl:ident : tactic => `(tactic|
-  (rw [$il:ident] at hi; simp only [Option.some.injEq] at hi; subst hi
-   rw [$pl:ident] at hp; simp only [Bool.and_eq_true, beq_iff_eq] at hp
+macro "bitw_abs_pre" pl:ident : tactic => `(tactic|
+  (rw [$pl:ident] at hp; simp only [Bool.and_eq_true, beq_iff_eq] at hp
    first
      | (have htag : (op2 &&& 0xff0f == 0x7000) = true := by bv_decide)
      | (have htag : (op2 &&& 0xff0f == 0x7100) = true := by bv_decide)
@@ -227,7 +236,12 @@ local macro "bitw_abs" il:ident pl:ident : tactic => `(tactic|
    case h_3 => simp at h
    rename_i u s1 hrw
    have ew := busWrite_poke _ _ _ _ hrw hsfr
-   subst ew
+   subst ew))
+
+set_option hygiene false in
+local macro "bitw_abs" il:ident pl:ident : tactic => `(tactic|
+  (rw [$il:ident] at hi; simp only [Option.some.injEq] at hi; subst hi
+   bitw_abs_pre $pl:ident
    bitcost_subst
    simp only [specRegCcrBus, Spec.exec, Spec.BitOp.writes, if_true]
    rw [abs8_addr, e2]
@@ -237,10 +251,10 @@ local macro "bitw_abs" il:ident pl:ident : tactic => `(tactic|
    simp only [Spec.bitK, BMod.ap, bstVal, nib, Spec.flag]
    bv_decide))
 
+
 set_option hygiene false in
-local macro "bitr_abs" il:ident pl:ident : tactic => `(tactic|
-  (rw [$il:ident] at hi; simp only [Option.some.injEq] at hi; subst hi
-   rw [$pl:ident] at hp; simp only [Bool.and_eq_true, beq_iff_eq] at hp
+macro "bitr_abs_pre" pl:ident : tactic => `(tactic|
+  (rw [$pl:ident] at hp; simp only [Bool.and_eq_true, beq_iff_eq] at hp
    simp only [btstAbs, baccAbs, btstSet, Bool.false_eq_true, if_false, bind_ok, pure_ok, get_ok, readCcr_ok, changeCcr_ok] at h
    split at h
    case h_2 => simp at h
@@ -248,7 +262,12 @@ local macro "bitr_abs" il:ident pl:ident : tactic => `(tactic|
    rename_i vb sb hbb
    obtain ⟨e1, e2, _⟩ := busRead_peek _ _ _ _ hbb
    subst e1
-   try (rw [C04H.writeCcr_val _ _ _ (C04H.bacc_value _ _ _ _)] at h; simp only [bind_ok] at h)
+   try (rw [C04H.writeCcr_val _ _ _ (C04H.bacc_value _ _ _ _)] at h; simp only [bind_ok] at h)))
+
+set_option hygiene false in
+local macro "bitr_abs" il:ident pl:ident : tactic => `(tactic|
+  (rw [$il:ident] at hi; simp only [Option.some.injEq] at hi; subst hi
+   bitr_abs_pre $pl:ident
    bitcost_subst
    simp only [specRegCcr, Spec.exec, Spec.BitOp.writes, Bool.false_eq_true, if_false]
    rw [abs8_addr, e2]
@@ -257,6 +276,7 @@ local macro "bitr_abs" il:ident pl:ident : tactic => `(tactic|
    congr 1
    simp only [Spec.bitK, BAcc.ap, nib, Spec.flag, Spec.setFlag, changeCcrV]
    bv_decide))
+
 
 /-- BSET #imm,@aa:8: exactly the addressed bit of exactly the addressed byte changes -/
 theorem BSET_I_AA8 (op op2 : BitVec 16) (st st' : Cpu) (c : BitVec 8) (i : Spec.Instr)
